@@ -339,6 +339,15 @@ impl<'a> CaseEnv<'a> {
     pub fn kf_active(&self, id: &str) -> bool {
         self.kf.active(id)
     }
+    /// If `f` matches an open known finding of `prop`, count the hit and return its id: the check can
+    /// then carry on with the rest of the case instead of ending it.
+    pub fn kf_absorb(&mut self, prop: &str, f: &Failure) -> Option<String> {
+        let id = self.kf.matches(prop, f)?;
+        if self.counting {
+            *self.stats.borrow_mut().kf_hits.entry(id.clone()).or_insert(0) += 1;
+        }
+        Some(id)
+    }
 }
 
 // ---------------------------------------------------------------------------------------------
